@@ -573,11 +573,29 @@ func (m *Machine) strBinop(op token.Token, x, y value) value {
 }
 
 func (m *Machine) binop(op token.Token, t types.Type, x, y value) value {
+	xtok := false
 	if _, ok := x.(symtok); ok {
 		x = m.resolveTok(x)
+		xtok = true
 	}
+	ytok := false
 	if _, ok := y.(symtok); ok {
 		y = m.resolveTok(y)
+		ytok = true
+	}
+	if xtok || ytok {
+		_, xIsIface := x.(iface)
+		_, yIsIface := y.(iface)
+		_, xIsSlice := x.([]value)
+		_, yIsSlice := y.([]value)
+		if (xIsIface && yIsSlice) || (xIsSlice && yIsIface) {
+			panic(pathEnd{"infeasible", "token of the wrong shape in a comparison"})
+		}
+		if t != nil {
+			if _, staticIface := t.Underlying().(*types.Interface); staticIface && (xIsSlice || yIsSlice) {
+				panic(pathEnd{"infeasible", "token of the wrong shape in a comparison"})
+			}
+		}
 	}
 	if isSym(x) || isSym(y) {
 		return m.symBinop(op, x, y)
@@ -1231,9 +1249,19 @@ func (m *Machine) sliceToArrayPointer(t_dst, t_src types.Type, x value) value {
 // builtins
 
 func (m *Machine) callBuiltin(caller *frame, fn *ssa.Builtin, args []value) value {
+	fromTok := false
 	for i := range args {
 		if _, ok := args[i].(symtok); ok {
 			args[i] = m.resolveTok(args[i])
+			fromTok = true
+		}
+	}
+	if fromTok {
+		switch fn.Name() {
+		case "len", "cap", "append", "copy":
+			if _, isIface := args[0].(iface); isIface {
+				panic(pathEnd{"infeasible", "token of the wrong shape for a slice"})
+			}
 		}
 	}
 	switch fn.Name() {
